@@ -145,6 +145,9 @@ type ImageOpts struct {
 	// held data beyond its current size (the case in which stale blocks could resurface)
 	SuffixIfTruncatedData bool
 	Recrash               bool // crash again at every point of the recovery's own writes
+	// SecondEpoch: the recovered server serves a further workload on the (recording) image; that run is cut at up
+	// to SecondEpoch of its own points and recovered again, under the same prefix oracle (crash, recover, go on, crash)
+	SecondEpoch int
 	Fsck                  func(s *Srv) (*FsckReport, error)
 	// NoPrefixOracle: only the structural check is applied (C04/C05/C12 attribute failures to their own oracle)
 	NoPrefixOracle bool
@@ -210,6 +213,12 @@ func (cr *CrashRun) CheckImage(img *Disk, k int, opts ImageOpts) (int, *FsckRepo
 			opts.Suffix = true
 			St.Class("images_probed_for_resurrected_data")
 		}
+		if opts.SecondEpoch > 0 && !opts.Suffix {
+			if err := cr.secondEpoch(s, img, matched, opts.SecondEpoch); err != nil {
+				rerr = fmt.Errorf("recovered to the state after entry %d, went on serving, and then: %v", matched, err)
+				return
+			}
+		}
 		if opts.Suffix {
 			if err := serveSuffix(s, cr.TL[matched].State, cr.X.EverWritten); err != nil {
 				rerr = fmt.Errorf("recovered to the state after entry %d, but the server does not keep serving correctly: %v", matched, err)
@@ -257,6 +266,83 @@ func (cr *CrashRun) CheckImage(img *Disk, k int, opts ImageOpts) (int, *FsckRepo
 		}
 	}
 	return matched, rep, nil
+}
+
+// secondEpoch: crash, recover, go on, crash again.  The recovered server s runs on img, which records its
+// writes; a little workload with operations of every stability level is executed under the sequential oracle
+// with a timeline of its own, starting from the matched state (everything a recovered server shows is on the
+// device).  Then that second run is cut at up to maxPts points (plain cut, and all un-barriered writes lost) and
+// recovered again: the result must be the matched state followed by a prefix of the second workload that
+// contains all its stable acknowledgements.
+func (cr *CrashRun) secondEpoch(s *Srv, img *Disk, matched int, maxPts int) error {
+	x := execOnState(s, cr.TL[matched].State, cr.X.Prop)
+	cr2 := &CrashRun{D: img, X: x, Unstable: cr.Unstable}
+	cr2.From = img.Mark()
+	cr2.TL = []tlEntry{{Started: 0, Acked: cr2.From, Flushed: true, State: x.M.Snapshot(), Desc: "state after the first recovery"}}
+	cr2.lastMut = x.Mutations
+	var serr error
+	step := func(f func() error) bool {
+		if serr == nil {
+			cr2.Step(func() error { serr = f(); return nil })
+		}
+		return serr == nil
+	}
+	root := LiveRef(x.M.Root)
+	var old *MNode
+	for _, f := range x.M.LiveKind(nt.NF3REG) {
+		if old == nil || f.Size > old.Size {
+			old = f
+		}
+	}
+	step(func() error { return x.Mkdir(root, "zz2") })
+	if serr != nil {
+		return serr
+	}
+	d := LiveRef(x.M.Root.Children["zz2"])
+	step(func() error { return x.Create(d, "f") })
+	if serr != nil {
+		return serr
+	}
+	f := LiveRef(d.N.Children["f"])
+	step(func() error { return x.Write(f, 0, patternData(0xe201, 5000), 5000, nt.UNSTABLE) })
+	if old != nil && old.Size < 400*BlockSize {
+		step(func() error { return x.Write(LiveRef(old), old.Size, patternData(0xe202, 100), 100, nt.FILE_SYNC) })
+	}
+	step(func() error { return x.Write(f, 8192, patternData(0xe203, 4096), 4096, nt.UNSTABLE) })
+	step(func() error { return x.Commit(f, 0, 0) })
+	sz := uint64(1000)
+	step(func() error { return x.Setattr(f, &sz, false) })
+	step(func() error { return x.Rename(d, "f", root, "zz2moved") })
+	if old != nil {
+		step(func() error { return x.Remove(LiveRef(old.Parent), old.Name) })
+	}
+	step(func() error { return x.Write(f, 2*BlockSize+7, patternData(0xe204, 300), 300, nt.DATA_SYNC) })
+	step(func() error { return x.Write(f, 0, patternData(0xe205, 10), 10, nt.UNSTABLE) })
+	step(func() error { return x.Rmdir(root, "zz2") })
+	if serr != nil {
+		return fmt.Errorf("second workload: %v", serr)
+	}
+	s.N.VerifWaitShrinkers()
+	trace := img.Trace()
+	pts, _ := CrashPoints(trace, cr2.From, maxPts)
+	for _, k2 := range pts {
+		for _, v := range Variants(trace, k2, 0, 0) {
+			if v.Name != "cut" && v.Name != "drop-all-pending" {
+				continue
+			}
+			img2 := ImageOf(img.size, img.init, trace, k2, v.Drop)
+			if _, _, err := cr2.CheckImage(img2, k2, ImageOpts{}); err != nil {
+				lo, hi := cr2.Window(k2)
+				var tl []string
+				for i := lo; i <= hi && i < len(cr2.TL); i++ {
+					tl = append(tl, fmt.Sprintf("entry %d flushed=%v: %s", i, cr2.TL[i].Flushed, cr2.TL[i].Desc))
+				}
+				return fmt.Errorf("second crash after %d of the %d events of the second run (%s; window %v): %v", k2-cr2.From, len(trace)-cr2.From, v.Name, tl, err)
+			}
+			St.Class("second_epoch_crash_images")
+		}
+	}
+	return nil
 }
 
 // serveSuffix runs a fixed little workload on a recovered server under the sequential oracle.
